@@ -137,9 +137,20 @@ def fo_template(rng, identity=False):
     rng.shuffle(prems)
     return prems, conc
 
+def modal_fo_template(rng, identity=False):
+    "Quantified and ground first-order sentences under modal operators: witnesses at several worlds."
+    prems, conc = fo_template(rng, identity)
+    def wrap(s):
+        for _ in range(rng.choice((0, 1, 1, 2))):
+            s = ('O', rng.choice(('Possibility', 'Possibility', 'Necessity')), (s,))
+        return s
+    return [wrap(p) for p in prems], wrap(conc)
+
 def gen_case(rng, logic, fragment=None, p_example=0.3):
     prof = profile_for(rng, logic, fragment)
     sem = refsem.get(logic)
+    if fragment is None and sem.modal and sem.quantified and rng.random() < 0.1:
+        return modal_fo_template(rng, identity=sem.classical)
     if fragment in (None, 'modal') and sem.modal and rng.random() < (0.5 if sem.frame == 'D' else 0.3):
         return modal_template(rng)
     if fragment in (None, 'fo') and sem.quantified and rng.random() < 0.15:
